@@ -33,7 +33,7 @@ def gen_level(rng, cfg, ns, locales, default, depth, prefix, fk_pool):
     """Returns {locale: tree} for one level. fk_pool[locale] = list of (path) of plain keys already
     generated in that locale (rank order = generation order, so references are acyclic)."""
     n = rng.randint(*cfg.n_keys) if depth == 0 else rng.randint(1, 4)
-    names = gen.gen_key_names(rng, n)
+    names = gen.gen_key_names(rng, n, cfg.key_pool)
     trees = {l: [] for l in locales}
     order = list(names)
     rng.shuffle(order)
